@@ -2,6 +2,8 @@
 
 package fieldmaskpb
 
+import "strings"
+
 // Contracts for the path order and the prefix relation that Normalize, Union and Intersect are
 // built on (property C44). Specs are written from the comments of lessPath and hasPathPrefix:
 // "a lexicographical comparison where dot is specially treated as the smallest symbol" and "like
@@ -195,4 +197,34 @@ func contract_normalizePaths(paths []string) (r []string) {
 func lemma_IntersectCasesExhaustive(s1, s2 string) {
 	lemma_LessTotal(s1, s2, 0)
 	ensures(specPrefix(s1, s2) || specPrefix(s2, s1) || specLess(s1, s2, 0) || specLess(s2, s1, 0))
+}
+
+// ---------------------------------------------------------------- rangeFields
+
+// specFieldsOK: f accepts every field of path, where the fields are what strings.Split(path, ".")
+// yields - including empty fields for a leading, trailing or doubled dot (the comment of
+// rangeFields: "like strings.Split(path, \".\")"). f is a pure predicate here.
+//
+//@ opaque
+func specFieldsOK(path string, f func(field string) bool) bool {
+	i := strings.IndexByte(path, '.')
+	if i < 0 {
+		return f(path)
+	}
+	return f(path[:i]) && specFieldsOK(path[i+1:], f)
+}
+
+// rangeFields presents every field to the callback, in order, stopping at the first refusal: for a
+// callback whose verdict depends only on the field (pure), the result is the conjunction over all
+// fields. (numValidPaths passes a callback that also tracks the current message; that use is
+// outside this contract.)
+//
+//@ props C44
+//@ mode int
+//@ pure-funcvalues
+//@ loop 1 invariant specFieldsOK(old(path), f) == specFieldsOK(path, f)
+func contract_rangeFields(path string, f func(field string) bool) (r bool) {
+	modifiesAll()
+	ensures(r == specFieldsOK(path, f))
+	return
 }
